@@ -46,7 +46,7 @@ var c10Envs = [][]string{
 	{"SONIC_USE_OPTDEC=1", "SONIC_USE_FASTMAP=1", "GOGC=1"},
 }
 
-var c10Actions = []string{"gc", "freeos", "alloc:4", "alloc:32", "grow:100", "grow:3000", "grow:40000", "stack", "callers", "panic", "yield", "gc"}
+var c10Actions = []string{"gc", "freeos", "alloc:2", "alloc:8", "grow:100", "grow:3000", "grow:40000", "stack", "callers", "panic", "yield", "gc"}
 
 func drawC10(t *rapid.T) Case {
 	c := &C10Case{}
@@ -201,6 +201,10 @@ func (c *C10Case) Run() (res stat.Result) {
 	}
 	got, err := w.ask("C10", c)
 	if err != nil {
+		if _, ok := err.(errWorkerTimeout); ok {
+			res.Inconclusive = fmt.Sprintf("C10 worker %v: %v", c10Envs[c.Env], err)
+			return
+		}
 		res.Err = fmt.Errorf("worker under %v with plan %v: %v", c10Envs[c.Env], c.Plan, err)
 		return
 	}
